@@ -837,8 +837,8 @@ def register_branch(R, path_obj):
             t, P, C = (E.spec_extra[x] for x in ("tree", "P", "C"))
             r, m = v["result"], P.nz()
             cl = col(t, key_of(v))
-            if isinstance(r, NArr):  # no compartment at all: nothing to report
-                return z3.And(m == 0, len(r.items) == 0)
+            if isinstance(r, NArr):  # no compartment at all: an empty array of the documented shape (0, 2)
+                return z3.And(m == 0, r.shape == (0, 2))
             if not (isinstance(r, X.SRows) and r.inner == (2,) and r.uid not in E.entry_uids):
                 return False
             k = qj("k")
@@ -849,12 +849,13 @@ def register_branch(R, path_obj):
 
     def shape_m2(E, v, o):
         r = v["result"]
-        return isinstance(r, X.SRows) and r.inner == (2,)
+        return (isinstance(r, X.SRows) and r.inner == (2,)) or (isinstance(r, NArr) and r.shape == (0, 2))
 
     R.add(f"{COMP}:Compartments.get_ndata", prop="C09",
           variants={k: (lambda S, _k=k: comps_setup(S, key=_k)) for k in KEYS}, requires=CPRE,
           ensures=[("one-row-(parent-value,child-value)-per-compartment-in-order-in-a-fresh-array", rows_post(lambda v: v["key"])),
-                   # FINDING: np.array([]) of an EMPTY Compartments (the segments of a one-node tree) has shape (0,), not the documented (n_sample, 2)
+                   # found a defect (fixed in /repo, see known_findings.jsonl): np.array([]) of an EMPTY Compartments (the segments of a
+                   # one-node tree) had shape (0,), not the documented (n_sample, 2)
                    ("shape-(n_sample,2)-also-for-no-compartments", shape_m2)],
           options=dict(OPTS))
 
@@ -866,6 +867,8 @@ def register_branch(R, path_obj):
         def f(E, v, o):
             t, P, C = (E.spec_extra[x] for x in ("tree", "P", "C"))
             r, m = v["result"], P.nz()
+            if isinstance(r, NArr):  # no compartment: the empty array of the documented shape
+                return z3.And(m == 0, r.shape == (0, 2, len(names)))
             if not (isinstance(r, X.SRows) and r.inner == (2, len(names)) and r.uid not in E.entry_uids):
                 return False
             k = qj("k")
@@ -874,8 +877,8 @@ def register_branch(R, path_obj):
 
         return f
 
-    # FINDING: on an EMPTY Compartments (a one-node tree has no segment) xyz()/xyzr() raise numpy's AxisError (a ValueError) instead of
-    # returning an array of shape (0, 2, 3) / (0, 2, 4): obligation exc/unexpected-ValueError
+    # found a defect (fixed in /repo): on an EMPTY Compartments (a one-node tree has no segment) xyz()/xyzr() raised numpy's AxisError
+    # (a ValueError) instead of returning an array of shape (0, 2, 3) / (0, 2, 4): obligation exc/unexpected-ValueError
     for fn, names in (("xyz", ("x", "y", "z")), ("xyzr", ("x", "y", "z", "r"))):
         R.add(f"{COMP}:Compartments.{fn}", prop="C09", setup=lambda S: comps_setup(S), requires=CPRE,
               ensures=[(f"(n_sample,2,{len(names)})-array-of-the-(parent,child)-{'-'.join(names)}-in-order", stacked_post(names))], options=dict(OPTS))
